@@ -1,13 +1,13 @@
 from .base import *
 
 ID = 'C11'
-THEOREMS = ['C11_project_structure', 'C11_length_free', 'C11_half_turn', 'C11_reject_def', 'C11_to_angle', 'C11_angle_project', 'C11_project_value', 'C11_length_value', 'C11_to_angle_value', 'C11_project_signed', 'C11_reject_orthogonal']
+THEOREMS = ['C11_project_structure', 'C11_length_free', 'C11_half_turn', 'C11_reject_def', 'C11_to_angle', 'C11_angle_project', 'C11_project_value', 'C11_length_value', 'C11_to_angle_value', 'C11_project_signed', 'C11_reject_orthogonal', 'C11_recompose']
 OWNED = {'GProject', 'GReject', 'AProject', 'GProjDim', 'GProjAngle'}
 RULE = ('pairs by angle relation x magnitude relation with |b| around 1e-10 (0, 5e-11, 1e-10 +-ulp, 2e-10) and in the domain; projection onto b and onto b rescaled; rejection vs a - proj; proj + rej; '
         'Angle::project on angle pairs; project_to_dimension for k and k+4n up to 2^40; project_to_angle. non-trivial = owned op result differs from its operands')
 TRUSTED = TRUSTED_COMMON
 ASSUMPTIONS = ASSUME_COMMON + ['libm cos (and sin/atan2 through Geonum subtraction) enter as the model parameter L']
-S3_LEGS = ['projection magnitude and sign (C11_project_value, C11_project_signed), length-free value, to-angle value, rejection orthogonality (C11_reject_orthogonal) are theorems under cos_acc / sin_acc; proj + rej = a, Pythagoras and project_to_dimension at high dimension are decided by predicates against mpmath only']
+S3_LEGS = ['projection magnitude and sign (C11_project_value, C11_project_signed), length-free value, to-angle value, rejection orthogonality (C11_reject_orthogonal) are theorems under cos_acc / sin_acc; proj + rej = a is C11_recompose (general path of the subtraction); Pythagoras and project_to_dimension at high dimension are decided by predicates against mpmath only']
 
 def generate(rng, tier):
     n = 260 if tier == 'quick' else 8000
@@ -44,5 +44,5 @@ def generate(rng, tier):
 
 LEVEL_TEXT = ('Kernel-checked theorems for every libm: projection onto a target with |b| <_F 1e-10 has zero magnitude (total); otherwise magnitude fmul |a| (fabs pf) along exactly b\'s angle when pf >= 0 and b\'s angle + pi (exactly two blades, same remainder) otherwise, '
               'independent of |b|; reject IS a - project; project_to_angle encodes the signed value at blade 0 / 2 with remainder 0; Angle::project and project_to_dimension are cosF of the canonical angle difference. '
-              'C11_project_value / C11_length_value / C11_to_angle_value (S2, REAL pi): for any libm with |cosF - cos| <= u on [-8,8], Angle::project is within u + 1.0001e-10 of cos(dir onto - dir a) and the projected lengths (project, project_to_angle) are within |g|(u + 1.0002e-10) + 2^-1075 of |g||cos(dir onto - dir g)|. C11_project_signed / C11_reject_orthogonal (S2): the Cartesian point of the projection is +-|p|(cos,sin)(dir onto) with the signed length equal to the true coefficient |g|cos(delta) within 3|g|(u + 1.0002e-10); the rejection g - project is ORTHOGONAL to onto: its component along onto vanishes within 2T + 3|g|(u+1.0002e-10), T the tolerance of C06_cartesian for the subtraction (general path; cos/sin/atan2 accuracy as explicit premises). The exact paths (g parallel to onto) and project + reject = g are decided against mpmath (S3).')
+              'C11_project_value / C11_length_value / C11_to_angle_value (S2, REAL pi): for any libm with |cosF - cos| <= u on [-8,8], Angle::project is within u + 1.0001e-10 of cos(dir onto - dir a) and the projected lengths (project, project_to_angle) are within |g|(u + 1.0002e-10) + 2^-1075 of |g||cos(dir onto - dir g)|. C11_project_signed / C11_reject_orthogonal (S2): the Cartesian point of the projection is +-|p|(cos,sin)(dir onto) with the signed length equal to the true coefficient |g|cos(delta) within 3|g|(u + 1.0002e-10); the rejection g - project is ORTHOGONAL to onto: its component along onto vanishes within 2T + 3|g|(u+1.0002e-10), T the tolerance of C06_cartesian for the subtraction (general path; cos/sin/atan2 accuracy as explicit premises). The exact paths (g parallel to onto) and project + reject = g are decided against mpmath (S3). C11_recompose (Recompose.v): projection + rejection reproduce the original vector component by component within the tolerance T of C06_cartesian_sub (the rejection being g - proj on the general path).')
 LEVEL_NOTE = ('Partial. Trusted: Coq kernel + vm_compute; 4 standard-library axioms; plus the primitive-integer axioms (PrimInt63.*, Uint63.*_spec) that the Interval tactic uses for the two bounds on the real pi in PiBounds.v (value theorems only); hand-written model validated bit-for-bit each run with the recorded libm table.')
